@@ -1,6 +1,16 @@
 # per-property claim texts used by mk_manifest.py
 NA = {}
 CLAIMS = {
+ 'C14': {
+  'technique': 'Coq proofs (all extents, both layouts) that the head split / merge reshape sequences regenerated from forward() realise the intended index maps and are mutually inverse; index-coded probe of the same sequences on torch; numeric equivalence runs vs nn.MultiheadAttention',
+  'text': ('PARTIAL. The contiguous / view / transpose sequences of DPMultiheadAttention.forward (head split of q, k, v; head merge for batch_first False and True) are regenerated from the '
+           'source as operation lists over symbolic extents and interpreted by a division-free row-major index semantics: proved for ALL L, B, H, head_dim that head (b*H+h, l, d) is '
+           'projection entry (l, b, h*head_dim+d), that the merged output entry (l, b, h*head_dim+d) -- (b, l, .) for batch_first -- is head entry (b*H+h, l, d), that these source indices are '
+           'unique, and that merge inverts split. The same generated sequences are applied by torch to index-coded tensors and the theorem statements checked entry by entry; scaling, score, mask '
+           'guards / fill / padding and weight averaging are pinned. Outputs, averaged weights, parameter gradients and state_dict round trips are compared with nn.MultiheadAttention over '
+           'heads x bias x add_bias_kv x add_zero_attn x kdim/vdim x batch_first x lengths x 2-D / 3-D bool / float masks x key padding (not proved: softmax / bmm / linear kernels). Three '
+           'defects found this way were repaired (batch_first head merge, batch_first mask guard, embed_dim = 1 with bias_kv).'),
+ },
  'C13': {
   'technique': 'Coq proof that the batched / packed time loop refines the per-sequence recurrence for an arbitrary cell, and of compute_seq_lengths (generated); exact integer-cell correspondence with the real forward_layer; numeric equivalence runs vs torch.nn',
   'text': ('PARTIAL. Proved: for EVERY cell function, every ragged length-sorted batch and initial states, the time loop with a shrinking batch and the previous state sliced to the current batch '
